@@ -316,25 +316,15 @@ func ruleC10CteReentry(c *Ctx) {
 	// registration: MapUpdate whose value is a closure
 	var reg *ssa.MapUpdate
 	var thunk *ssa.Function
+	var regMc *ssa.MakeClosure
+	var regVia *ssa.Call
 	allInstrs(f, func(_ *ssa.BasicBlock, in ssa.Instruction) {
 		mu, ok := in.(*ssa.MapUpdate)
 		if !ok {
 			return
 		}
-		v := mu.Value
-		for {
-			switch x := v.(type) {
-			case *ssa.MakeInterface:
-				v = x.X
-				continue
-			case *ssa.ChangeType:
-				v = x.X
-				continue
-			}
-			break
-		}
-		if mc, ok := v.(*ssa.MakeClosure); ok {
-			reg, thunk = mu, mc.Fn.(*ssa.Function)
+		if mc, via := closureVia(mu.Value); mc != nil {
+			reg, thunk, regMc, regVia = mu, mc.Fn.(*ssa.Function), mc, via
 		}
 	})
 	if reg == nil {
@@ -345,7 +335,7 @@ func ruleC10CteReentry(c *Ctx) {
 	c.Fn(key)
 	c.Anchor("CTE thunk", key+" "+c.P.Pos(thunk.Pos()))
 	regKey := NewTB().Of(reg.Key).String()
-	paths, err := WalkFunc(thunk, WalkCfg{MaxVisits: 1, Bind: bindFreeVars(regClosure(reg))})
+	paths, err := WalkFunc(thunk, WalkCfg{MaxVisits: 1, Bind: bindFreeVarsVia(regMc, regVia)})
 	if err != nil {
 		c.Unknown("c10.cte-reentry", key, c.P.Pos(thunk.Pos()), err.Error())
 		return
